@@ -211,7 +211,7 @@ func serializeAttrsSep(pc *PrintCtx, kvps Attrs, leadingSep bool) (err error) { 
 			pc.pcAppendColon()
 		}
 
-		if key == timestampFieldName {
+		if key == timestampFieldName && prefix == "" { // the record-level name only, not a group member called "time"
 			// we format timestamp in according to the setting in flags
 			if z, ok := v.Value().(time.Time); ok {
 				// if pc.jsonMode || pc.noColor {
